@@ -11,7 +11,7 @@ import z3
 from . import ops
 from .loader import ClassInfo, ExtModule, Loader, ModuleInfo, builtin_class, has_builtin_class
 from .path import Path, PathEnd
-from .values import (FALSE, MAXLEN, NONE, TRUE, ARR, HObj, Lit, Unsupported, V, VBool, VBytes, VFloat,
+from .values import (FALSE, MAXLEN, NONE, TRUE, ARR, Guarded, HObj, Lit, Unsupported, V, VBool, VBytes, VFloat,
                      VInt, VNone, VRef, VStr, VTuple, VUnion, View, as_const, byte_val, concat, fresh,
                      iadd, imax, imin, int2bv, isub, mkbool, mkint, _iv)
 
@@ -399,7 +399,7 @@ class Interp:
     def ev_BoolOp(self, node, fr):
         # short circuit; merged into one term when the operands are pure
         is_and = isinstance(node.op, ast.And)
-        if all(self.pure_expr(v) for v in node.values[1:]):
+        if all(self.pure_expr(v, fr) for v in node.values[1:]):
             vals = [self.ev(node.values[0], fr)]
             conds = []
             acc = vals[0]
@@ -448,9 +448,14 @@ class Interp:
                 return v
         return v
 
-    def pure_expr(self, node):
+    def pure_expr(self, node, fr=None):
         """syntactically free of side effects (calls limited to pure builtins / methods on values)"""
+        spec = fr is not None and fr.func == "<spec>"
         for n in ast.walk(node):
+            if spec:
+                if isinstance(n, (ast.NamedExpr, ast.Await, ast.Yield, ast.YieldFrom)):
+                    return False
+                continue
             if isinstance(n, (ast.NamedExpr, ast.Await, ast.Yield, ast.YieldFrom, ast.Lambda, ast.ListComp, ast.DictComp, ast.GeneratorExp, ast.SetComp)):
                 return False
             if isinstance(n, ast.Call):
@@ -466,7 +471,7 @@ class Interp:
         t = ops.truth(self, self.ev(node.test, fr))
         if t.c is not None:
             return self.ev(node.body if t.c else node.orelse, fr)
-        if self.pure_expr(node.body) and self.pure_expr(node.orelse):
+        if self.pure_expr(node.body, fr) and self.pure_expr(node.orelse, fr):
             nt = z3.Not(t.t)
             a = b = None
             try:
@@ -606,6 +611,12 @@ class Interp:
         idx = self.ev(node.slice, fr)
         return self.getitem(base, idx)
 
+    def _emit_value(self, node_elt, f):
+        if isinstance(f, _GuardFrame):
+            v = self._under(f.cond, node_elt, f.frame)
+            return Guarded(f.cond, v)
+        return self.ev(node_elt, f)
+
     def ev_ListComp(self, node, fr):
         gens = node.generators
         if (len(gens) == 2 and not gens[0].ifs and not gens[1].ifs and isinstance(node.elt, ast.Name)
@@ -630,7 +641,7 @@ class Interp:
                 return symlist.concat_lists(self, parts)
             return self.new_list([x for p in parts for x in self.hobj(p).items])
         out = []
-        self._comp(node.generators, 0, fr, lambda f: out.append(self.ev(node.elt, f)))
+        self._comp(node.generators, 0, fr, lambda f: out.append(self._emit_value(node.elt, f)))
         return self.new_list(out)
 
     def ev_GeneratorExp(self, node, fr):
@@ -673,6 +684,26 @@ class Interp:
         it = self.ev(g.iter, fr if k == 0 else f2)
         if g.is_async:
             it = self.await_(it)
+        r = self.resolve(it)
+        if isinstance(r, VRef) and self.hobj(r).kind in ("symdict", "symset") and k == len(gens) - 1 and not g.ifs:
+            o = self.hobj(r)
+            keys = [(kk, p) for (kk, p, _v) in o.items] if o.kind == "symdict" else list(zip(o.items, o.meta["mem"]))
+            for kk, p in keys:
+                if not self.path.feasible(p):
+                    continue
+                self.assign(g.target, kk, f2)
+                got = []
+                self.path.solver.push()
+                saved = len(self.path.pc)
+                self.path.assume(p)
+                try:
+                    emit_inner = lambda f, got=got: got.append(f)
+                    self._comp(gens, k + 1, f2, lambda f: None)
+                finally:
+                    self.path.solver.pop()
+                    del self.path.pc[saved:]
+                emit(_GuardFrame(f2, p))
+            return
         for x in self.iterate(it, node=g):
             self.assign(g.target, x, f2)
             if all(self.cond(self.ev(c, f2), "compif") for c in g.ifs):
@@ -1129,7 +1160,7 @@ class Interp:
         if isinstance(cont, VRef):
             o = self.hobj(cont)
             if o.kind in ("list", "set"):
-                r = [ops.eq_values(self, y, x).term() for y in o.items]
+                r = [z3.And(y.cond, ops.eq_values(self, y.val, x).term()) if isinstance(y, Guarded) else ops.eq_values(self, y, x).term() for y in o.items]
                 return VBool(t=z3.Or(r)) if r else FALSE
             if o.kind == "dict":
                 r = [ops.eq_values(self, k, x).term() for k, _ in o.items]
@@ -1161,6 +1192,8 @@ class Interp:
         if isinstance(v, VRef):
             o = self.hobj(v)
             if o.kind in ("list", "set"):
+                if any(isinstance(x, Guarded) for x in o.items):
+                    raise Unsupported("iteration over a list with conditionally present elements")
                 return list(o.items)
             if o.kind == "dict":
                 return [k for k, _ in o.items]
@@ -1531,6 +1564,26 @@ class Interp:
             for b in list(node.body) + list(node.orelse):
                 self.note_log_args(b.value, fr)
             return
+        if (not node.orelse and len(node.body) == 1 and isinstance(node.body[0], ast.Expr) and isinstance(node.body[0].value, ast.Call)
+                and isinstance(node.body[0].value.func, ast.Attribute) and node.body[0].value.func.attr in ("append", "add")
+                and len(node.body[0].value.args) == 1 and not node.body[0].value.keywords
+                and self.pure_expr(node.test) and self.pure_expr(node.body[0].value.args[0]) and self.pure_expr(node.body[0].value.func.value)):
+            t = ops.truth(self, self.ev(node.test, fr))
+            if t.c is None:
+                call = node.body[0].value
+                cont = self.resolve(self.ev(call.func.value, fr))
+                if isinstance(cont, VRef) and self.hobj(cont).kind in ("list", "symset") and self.path.feasible(t.t):
+                    try:
+                        x = self._under(t.t, call.args[0], fr)
+                    except _InfeasibleBranch:
+                        return
+                    o = self.hobj(cont)
+                    self.log_write(("cont", cont.ref))
+                    if o.kind == "list":
+                        o.items.append(Guarded(t.t, x))
+                    else:
+                        self.B.symset_add(self, cont, o, x, cond=t.t)
+                    return
         if self.cond(self.ev(node.test, fr), f"if@{node.lineno}"):
             self.exec_block(node.body, fr)
         else:
@@ -1691,6 +1744,11 @@ class Interp:
         self.exec_block(node.orelse, fr)
 
     st_AsyncFor = st_For
+
+
+class _GuardFrame:
+    def __init__(self, frame, cond):
+        self.frame, self.cond = frame, cond
 
 
 class _ClassNS(dict):
